@@ -100,6 +100,16 @@ def main_loop(handler, per_job_timeout: int = 60):
                 res = handler(job)
             except JobTimeout:
                 res = {'timeout': True}
+            except (AssertionError, MemoryError):
+                raise
+            except Exception as e:      # noqa: BLE001
+                # the library raised where the driver expects no exception (e.g. wn.add() of a
+                # valid document): that is an observation about the library, reported like a
+                # call that did not come back, with the exception kept for the replay file
+                import traceback
+                res = {'timeout': True, 'crash': f'{type(e).__name__}: {e}'[:300],
+                       'where': traceback.format_exc()[-600:]}
+                print('driver: unexpected exception ' + res['crash'], file=sys.stderr)
             finally:
                 signal.alarm(0)
             out.write(json.dumps(res, ensure_ascii=False, separators=(',', ':'),
